@@ -259,6 +259,8 @@ class Program:
                 mod.assigns[stmt.target.id] = stmt.value
 
     def _register_function(self, fi: FunctionInfo) -> None:
+        if any(d.rsplit(".", 1)[-1] == "overload" for d in fi.decorator_names()):
+            fi.qualname = fi.qualname + "@overload"  # typing stubs; the implementation keeps the plain name
         q = fi.qualname
         n = 2
         while q in self.functions:
